@@ -412,7 +412,7 @@ def c05(tier, seed):
                     "traces_validated_against_impl": v["events"], "evaluations": v["events"], "distinct_nontrivial": meta["compared"],
                     "rule": "one evaluation = one pair (base run, equivalent run) of the real solver: identical call, rows permuted inside cones, cones "
                             "reordered, variables permuted, NN cones split / spelled as SOC(1)/PSD(1), P full vs triu, objective x 2^k, presolve / "
-                            "equilibration / refinement toggled, qdldl vs auto backend, max_threads, same object solved twice, instances on 4 "
+                            "equilibration / refinement toggled, qdldl vs auto backend, max_threads, same object solved twice, the same data reached through the update API (owned index/value form), a setup-time switch flipped on the live object (bit for bit), instances on 4 "
                             "concurrent threads; both runs mapped to the base formulation by the observer; TLC checks verdict class, weak duality "
                             "across runs in both directions and bit equality where reproducibility is demanded; non-trivial = both runs ended with a verdict",
                     "by_kind": kinds, "meta": meta, "samples": sample(lines, 3), "mc_lifecycle_states": mc["states"],
